@@ -291,8 +291,11 @@ def _case_hash(case) -> str:
 def load_known(prop_id: str) -> list[dict]:
     if not os.path.exists(KNOWN_FILE):
         return []
-    data = json.load(open(KNOWN_FILE))
-    return [f for f in data.get('findings', []) if f.get('property') == prop_id and f.get('status') == 'known']
+    findings = list(json.load(open(KNOWN_FILE)).get('findings', []))
+    extra = os.path.join(VERIF, 'known.d', f'{prop_id}.json')     # per-property part of the committed list
+    if os.path.exists(extra):
+        findings += json.load(open(extra)).get('findings', [])
+    return [f for f in findings if f.get('property') == prop_id and f.get('status') == 'known']
 
 
 def _shrink(prop: Prop, case, failure: Failure, driver, budget_s: float = 60.0):
